@@ -226,6 +226,45 @@ fn c05_one<B: BF + Send + Sync, H: ElementHasher<BaseField = B> + Sync + 'static
                 });
             }
         }
+        // transcript binding of the out-of-domain frame: every base-field coefficient of every
+        // revealed out-of-domain evaluation must influence what the verifier feeds into the public
+        // coin (the C04 mechanism "every parsed value feeds the transcript or a commitment check").
+        // The verifier's coin calls are logged (reseed digests included); a changed coefficient
+        // that leaves the log identical is not bound, even if this particular proof is rejected
+        // later for another reason (a compensating edit elsewhere would then be accepted).
+        {
+            let log_of = |bytes: &[u8]| -> Option<Vec<String>> {
+                let proof = Proof::from_bytes(bytes).ok()?;
+                let acceptable = AcceptableOptions::OptionSet(vec![h.opts.build()]);
+                let pi = h.pub_in.clone();
+                let r = std::panic::catch_unwind(std::panic::AssertUnwindSafe(move || verify::<GenAir<B>, H, LogCoin<B, H>, MerkleTree<H>>(proof, pi, &acceptable)));
+                let mut l = COIN_LOG.with(|l| l.borrow().clone());
+                l.push(match r { Ok(Ok(())) => "ACCEPT".into(), Ok(Err(e)) => format!("REJECT:{}", format!("{e}").chars().take(40).collect::<String>()), Err(_) => "PANIC".into() });
+                Some(l)
+            };
+            let honest_log = log_of(&h.bytes);
+            let eb = B::ELEMENT_BYTES;
+            for v in proof_vectors(&h).iter().filter(|v| v.name.starts_with("ood-")) {
+                for ci in 0..v.len / eb {
+                    let at = v.data_pos + ci * eb;
+                    let mut b = h.bytes.clone();
+                    b[at] = if b[at] == 0xff { 0xfe } else { b[at] + 1 };
+                    let name = v.name;
+                    out.count(&format!("binding:{name}"));
+                    let (tl, hl) = (log_of(&b), honest_log.clone());
+                    out.case(&format!("c04 {field} {hname} binding:{name}:{ci} {}", hex(&b)), "~^(bound|rejected-early)$", move || {
+                        match (tl, hl) {
+                            (None, _) => "rejected-early".into(),
+                            (Some(t), Some(hh)) => {
+                                // compare the coin interaction up to (not including) the final verdict
+                                if t[..t.len() - 1] == hh[..hh.len() - 1] { format!("UNBOUND transcript identical ({})", t.last().unwrap()) } else { "bound".into() }
+                            },
+                            (Some(_), None) => "bound".into(),
+                        }
+                    });
+                }
+            }
+        }
         // length-prefix surgery: every length-prefixed byte vector inside the proof grows or shrinks
         // by k bytes with its prefix re-encoded (so that decoding stays aligned): nothing the parsers
         // accept may be ignored by the verifier
@@ -430,7 +469,10 @@ pub fn run_c03(rng: &mut Rng, out: &mut Out, n: usize) {
 fn fnv(bs: &[u8]) -> u64 { let mut h = 0xcbf29ce484222325u64; for b in bs { h ^= *b as u64; h = h.wrapping_mul(0x100000001b3); } h }
 
 fn c06_one<B: BF + Send + Sync, H: ElementHasher<BaseField = B> + Sync + 'static>(rng: &mut Rng, out: &mut Out, max_log: u64, p: u128, conv: fn(u128) -> B, field: &str, hname: &str) {
-    let inst = gen_instance(rng, p, max_log, true);
+    // exact trace length; every second instance has periodic columns with cycles up to the trace
+    // length (fragment-relative step bookkeeping only shows with long cycles)
+    let long = rng.chance(1, 2);
+    let inst = crate::genair::gen_instance_shaped(rng, p, max_log, max_log, true, long);
     let mut opts = gen_opts(rng, &inst, field, true);
     opts.g = 0; // without grinding the nonce is fixed, so whole proofs must coincide
     let claimed: Vec<Vec<u128>> = inst.desc.asserts.iter().map(|a| a.values.clone()).collect();
@@ -461,7 +503,7 @@ pub fn run_c06(rng: &mut Rng, out: &mut Out, n: usize) {
     install_panic_hook();
     for i in 0..n {
         // sizes on both sides of the parallelism thresholds (1024 rows / elements, 8192 evaluations)
-        let max_log = *[5u64, 8, 10, 11, 13].get(i % 5).unwrap();
+        let max_log = *[9u64, 11, 12, 5, 10, 13, 8].get(i % 7).unwrap();
         with_cfg!(rng, c06_one, rng, out, max_log);
     }
 }
@@ -498,7 +540,7 @@ impl<B: BF, H: ElementHasher<BaseField = B>> RandomCoin for LogCoin<B, H> {
         self.inner.draw()
     }
     fn draw_integers(&mut self, num_values: usize, domain_size: usize, nonce: u64) -> Result<Vec<usize>, RandomCoinError> {
-        COIN_LOG.with(|l| l.borrow_mut().push(format!("I:{num_values}:{domain_size}")));
+        COIN_LOG.with(|l| l.borrow_mut().push(format!("I:{num_values}:{domain_size}:n{nonce}")));
         self.inner.draw_integers(num_values, domain_size, nonce)
     }
 }
@@ -522,7 +564,8 @@ fn c03t_one<B: BF + Send + Sync, H: ElementHasher<BaseField = B> + Sync + 'stati
     out.case(&format!("c03t {} {lde} {} {} {} {}", aux as u8, h.opts.b, h.opts.f, h.opts.rd, h.opts.q), "-", move || {
         let r = verify::<GenAir<B>, H, LogCoin<B, H>, MerkleTree<H>>(proof, pi, &acceptable);
         let log = COIN_LOG.with(|l| l.borrow().clone());
-        let mut s: Vec<String> = log.iter().map(|e| if let Some(d) = e.strip_prefix("R:") { label(d) } else { e.clone() }).collect();
+        let mut s: Vec<String> = log.iter().map(|e| if let Some(d) = e.strip_prefix("R:") { label(d) }
+            else if e.starts_with("I:") { e.rsplitn(2, ":n").last().unwrap_or(e).to_string() } else { e.clone() }).collect();
         if r.is_err() { s.push("REJECTED".into()); }
         s.join(" ")
     });
